@@ -208,7 +208,7 @@ def tria_compute_gradient(tria, vfunc):
     # get tria normals in n and 1.0/(2*areas) in lni
     n = np.cross(e2, -e1)
     ln = np.sqrt(np.sum(n * n, axis=1))
-    ln[ln < sys.float_info.epsilon] = 1  # avoid division by zero
+    ln[ln == 0] = 1  # avoid division by zero
     lni = np.divide(1.0, ln)[:, np.newaxis]
     n *= lni
     # sum three weighted edges
@@ -254,7 +254,7 @@ def tria_compute_divergence(tria, tfunc):
     # cross length
     n = np.cross(e2, -e1)
     ln = np.sqrt(np.sum(n * n, axis=1))
-    ln[ln < sys.float_info.epsilon] = 1  # avoid division by zero
+    ln[ln == 0] = 1  # avoid division by zero
     # cot = scalar products / cross norm
     # number according to opposite edge num
     cot0 = (e2 * (-e1)).sum(1) / ln
@@ -316,7 +316,7 @@ def tria_compute_divergence2(tria, tfunc):
     # cross length
     n = np.cross(e2, -e1)
     ln = np.sqrt(np.sum(n * n, axis=1))
-    ln[ln < sys.float_info.epsilon] = 1  # avoid division by zero
+    ln[ln == 0] = 1  # avoid division by zero
     lni = np.divide(1.0, ln)[:, np.newaxis]
     n *= lni
     c0 = np.cross(e0, n)
@@ -709,7 +709,7 @@ def tet_compute_gradient(tet, vfunc):
     # signed parallelepiped volume (its sign must match the sign of the
     # numerator below, otherwise the gradient flips with the orientation)
     vol = np.sum(e3 * cr, axis=1)
-    vol[np.abs(vol) < sys.float_info.epsilon] = 1  # avoid division by zero
+    vol[vol == 0] = 1  # avoid division by zero
     voli = np.divide(1.0, vol)[:, np.newaxis]
     # sum weighted edges
     # c0 = vfunc[t[:,0],np.newaxis] * np.cross(,)
